@@ -32,6 +32,7 @@ import (
 func init() {
 	register("C08", runC08)
 	register("C08-probe", runC08Probe)
+	register("C08-api", runC08API)
 }
 
 // ---------- guarded calls ----------
@@ -544,6 +545,7 @@ var c08StrPieces = []string{
 	`\000`, `\101`, `\377`, `\400`, `\777`, `\177`, `\x00`, `\x41`, `\x7f`, `\x80`, `\xff`, `\xFf`, `\u0000`, `A`,
 	`é`, `\ud83d`, `\ude00`, `\udfff`, `￾`, `￿`, ` `, `ࠀ`, `߿`, `\U0001F600`, `\U00010000`, `\U0010FFFF`,
 	`\U00110000`, `\U80000000`, `\UFFFFFFFF`, `\U0000D800`, `\U7FFFFFFF`, `\U00000041`, "é", "😀", "\xff", "\xc3", "\xe2\x98", "\n", "\x00", "\t",
+	`\ud83d\ude00`, `\ud83d\ud83d`, `\ude00\ud83d`, `\ud83d\u0041`, `\udbff\udfff`, `\ud800\udc00`, `\ud83d\ude0`, `\ud83d\uzz00`, `\ud83d\U0000de00`, `\ud83d\n`,
 	`\x1`, `\xg1`, `\x1g`, `\u12`, `\u123g`, `\ug123`, `\U1234567`, `\U0001F60g`, `\8`, `\9`, `\q`, `\`, `\7`, `\12`, `\18a`, `\81a`, `\/`, `\'`, `"`, `\x`, `\u`, `\U`, `\1`,
 }
 
@@ -601,12 +603,103 @@ func runC08(c *Ctx) {
 		}
 	}
 
+	// ---- 1. token-level correspondence ----
+	c08Tokens(c)
+
+	// ---- 0 + 2. corpus and API-level monitors, in a child process: a fatal Go error
+	// (stack overflow, out of memory) in the code under test cannot be recovered in-process ----
+	c08RunAPIChild(c)
+
+	// ---- 3. src_stm action: Go vs model ----
+	c08SrcAction(c)
+
+	// ---- 4. scaling probes (subprocess) ----
+	c08Scaling(c)
+}
+
+// c08RunAPIChild runs runC08API in a subprocess and merges its result; if the child dies,
+// the input it was working on (recorded before every call) is the replay.
+func c08RunAPIChild(c *Ctx) {
+	r := c.Res
+	self, err := os.Executable()
+	if err != nil {
+		r.note("API monitors skipped: %v", err)
+		return
+	}
+	outf := filepath.Join(c.Scratch, "api-result.json")
+	last := filepath.Join(c.Scratch, "api-last-input.json")
+	cmd := exec.Command(self, "-tier", c.Tier, "-seed", strconv.FormatInt(c.Seed, 10), "-out", outf,
+		"-corpus", c.Corpus, "-repo", c.RepoDir, "C08-api")
+	cmd.Env = append(os.Environ(), "VERIF_C08_LAST="+last)
+	var eb bytes.Buffer
+	cmd.Stderr = &eb
+	cmd.Stdout = &eb
+	runErr := cmd.Run()
+	if runErr == nil {
+		if b, err := os.ReadFile(outf); err == nil {
+			var cr Result
+			if json.Unmarshal(b, &cr) == nil {
+				r.Evals += cr.Evals
+				r.Distinct += cr.Distinct
+				for _, s := range cr.Samples {
+					r.sample(s)
+				}
+				for k, v := range cr.Histogram {
+					if r.Histogram == nil {
+						r.Histogram = map[string]int{}
+					}
+					r.Histogram[k] += v
+				}
+				r.Violations = append(r.Violations, cr.Violations...)
+				r.Notes = append(r.Notes, cr.Notes...)
+				return
+			}
+		}
+		r.note("API monitor child produced no readable result")
+		return
+	}
+	msg := eb.String()
+	cls := "crash"
+	switch {
+	case strings.Contains(msg, "stack overflow") || strings.Contains(msg, "stack exceeds"):
+		cls = "stack-overflow"
+	case strings.Contains(msg, "out of memory"):
+		cls = "out-of-memory"
+	case strings.Contains(msg, "concurrent map"):
+		cls = "concurrent-map-access"
+	}
+	head := msg
+	if i := strings.Index(head, "fatal error"); i >= 0 {
+		head = head[i:]
+	}
+	if len(head) > 1500 {
+		head = head[:1500]
+	}
+	var in map[string]interface{}
+	if b, err := os.ReadFile(last); err == nil {
+		json.Unmarshal(b, &in)
+	}
+	r.violate(Violation{Kind: "property", Key: "C08:fatal:" + cls,
+		What:  "the process running ParseSourceBytes/ParseValExp/FormatSrcBytes (or rendering the returned error) died with an unrecoverable Go error: " + cls,
+		Input: in, Impl: head, Expect: "a syntax tree or a located error; the process survives"})
+}
+
+// runC08API: corpus + API-level monitors (child process of runC08).
+func runC08API(c *Ctx) {
+	r := c.Res
+	lastFile := os.Getenv("VERIF_C08_LAST")
 	progSeeds, expSeeds := c08LoadSeeds(c)
 	allSeeds := append(append([]c08Seed{}, progSeeds...), expSeeds...)
 	reported := map[string]bool{}
 	shrunk := 0
 	checkInput := func(src []byte, path string, inc []string, origin string, nontrivial bool) {
 		r.count(string(src), nontrivial)
+		if lastFile != "" {
+			if b, err := json.Marshal(map[string]interface{}{"source": string(src), "source_go_quoted": strconv.Quote(string(src)),
+				"path": path, "include_paths": inc, "origin": origin}); err == nil {
+				os.WriteFile(lastFile, b, 0o644)
+			}
+		}
 		keys := c08Check(c, src, path, inc, origin, false)
 		for _, k := range keys {
 			if reported[k] {
@@ -649,8 +742,19 @@ func runC08(c *Ctx) {
 		checkInput([]byte(s), filepath.Join(c.Scratch, "corpus.mro"), nil, "corpus", true)
 	}
 
-	// ---- 1. token-level correspondence ----
-	c08Tokens(c)
+	// include cycles (two files including each other, and a self-include): the error must be renderable
+	{
+		dir := filepath.Join(c.Scratch, "cyc")
+		os.MkdirAll(dir, 0o755)
+		a := []byte("@include \"b.mro\"\n\nfiletype x;\n")
+		os.WriteFile(filepath.Join(dir, "a.mro"), a, 0o644)
+		os.WriteFile(filepath.Join(dir, "b.mro"), []byte("@include \"a.mro\"\n\nfiletype y;\n"), 0o644)
+		self := []byte("@include \"s.mro\"\n\nfiletype z;\n")
+		os.WriteFile(filepath.Join(dir, "s.mro"), self, 0o644)
+		r.hist("include-cycle")
+		checkInput(a, filepath.Join(dir, "a.mro"), []string{dir}, "include-cycle a<->b", true)
+		checkInput(self, filepath.Join(dir, "s.mro"), []string{dir}, "include-cycle self", true)
+	}
 
 	// ---- 2. API-level monitors ----
 	// every seed unchanged must be handled
@@ -678,7 +782,7 @@ func runC08(c *Ctx) {
 	}
 	// truncation at every byte of the small seeds
 	for _, s := range allSeeds {
-		if len(s.src) > 1200 && !c.Thorough {
+		if (len(s.src) > 1200 && !c.Thorough) || len(s.src) > 6000 {
 			continue
 		}
 		for i := 0; i < len(s.src); i++ {
@@ -704,7 +808,7 @@ func runC08(c *Ctx) {
 	}
 	deadline := time.Now().Add(12 * time.Second)
 	if c.Thorough {
-		deadline = time.Now().Add(6 * time.Minute)
+		deadline = time.Now().Add(200 * time.Second)
 	}
 	done := 0
 	for i := 0; i < n && time.Now().Before(deadline); i++ {
@@ -728,12 +832,6 @@ func runC08(c *Ctx) {
 		done++
 	}
 	r.note("random mutants run: %d", done)
-
-	// ---- 3. src_stm action: Go vs model ----
-	c08SrcAction(c)
-
-	// ---- 4. scaling probes (subprocess) ----
-	c08Scaling(c)
 }
 
 // ---------- token level ----------
@@ -1141,7 +1239,7 @@ func c08Scaling(c *Ctx) {
 	long := []int{20000, 200000}
 	decl := []int{500, 2000, 8000}
 	if c.Thorough {
-		deep = []int{1000, 10000, 100000, 1000000}
+		deep = []int{1000, 10000, 100000, 300000}
 		long = []int{20000, 200000, 2000000}
 		decl = []int{500, 2000, 8000, 32000}
 	}
